@@ -313,7 +313,13 @@ func c16Run(w *W) {
 				return
 			}
 			h := wcHeader(peerProto)
-			switch a % 4 {
+			hangup := false
+			switch a % 5 {
+			case 4:
+				// hangs up in an orderly way (FIN, not a reset) after 0..7
+				// correct header bytes: a port probe, a health check
+				h = h[:a/5%8]
+				hangup = true
 			case 0:
 				h[a/4%8] ^= byte(1 + a/32%255)
 			case 1:
@@ -327,11 +333,25 @@ func c16Run(w *W) {
 			w.Fault("hs-corrupt")
 			before := attached
 			p.c.Write(h)
+			if hangup {
+				w.Op("hostile: hangs up after %d header bytes", len(h))
+				w.Fault("hs-hangup")
+				p.c.Close()
+			}
 			w.Sleep(time.Millisecond)
 			w.Settle()
-			if attached != before && !bytes.Equal(h[:8], wcHeader(peerProto)) {
+			if attached != before && (len(h) < 8 || !bytes.Equal(h[:8], wcHeader(peerProto))) {
 				w.Failf("C16/bad-handshake-accepted:"+kind, "%s attached a peer after the header % x", kind, clip(h))
 				return
+			}
+			if hangup && !pairLike {
+				// the listener goes on accepting: a conforming peer attaches
+				q := connect(true)
+				if q == nil {
+					return
+				}
+				hostiles = append(hostiles, q)
+				w.Probe("attach-after-orderly-hangup")
 			}
 		default:
 			// everything else needs a hostile peer that completed its handshake
